@@ -349,6 +349,7 @@ func Random(id int, rng *rand.Rand, o Opts) *Prog {
 	g.leafs = append(g.leafs, Ref("", "IdItem"), Ref("", "Label"))
 	// enums
 	it := Basic([]string{"int", "uint8", "int16"}[rng.Intn(3)])
+	kindIsByte := it.Name == "uint8" // []Kind is then a byte slice for encoding/json (base64 string)
 	cs := []Const{{Name: "KA", Comment: "first"}, {Name: "KB"}, {Name: "KC", Comment: "third \"quoted\""}}
 	if o.EnumUnexported && rng.Intn(2) == 0 {
 		pos := rng.Intn(4)
@@ -459,6 +460,9 @@ func Random(id int, rng *rand.Rand, o Opts) *Prog {
 				e := g.pick(g.leafs)
 				if e.K == "basic" && e.Name == "uint8" && !o.ByteSlices {
 					e = Basic("int16")
+				}
+				if e.K == "ref" && e.Pkg == "" && e.Name == "Kind" && kindIsByte && !o.ByteSlices {
+					e = Ref("", "Score") // a slice of a uint8 enum is a byte slice too (recorded []byte finding)
 				}
 				t = Slice(e)
 			case r == 6:
